@@ -1,18 +1,23 @@
 """C01 Write-then-read returns the same objects (codec-level lemma L1; stream/pipeline lemmas are C15/C16/C04)."""
 import codec_common as CC
+import session_common as SC
 
 
 def tasks(tier, seed):
     ts = CC.rt_tasks(tier, kinds={'roundtrip', 'idempotence', 'uncaught_exception', 'terminate'})
+    ts += SC.session_tasks(tier, ['CHECK_C01'], 'session', ('C01:',))
     meta = dict(
         level='model_checking',
         explanation='Lemma L1 of the compositional argument in DESIGN.md: for every creatable class, an object '
                     'populated through the API with symbolic scalars/payloads is written to an in-memory stream and '
                     'read into a fresh object by the real codec code (llsym on clang IR); z3 decides per path that '
                     'every member the writer persists or the reader sets compares equal, payload containers come '
-                    'back with identical length and content, and re-encoding the decoded object reproduces the bytes.',
-        trusted_base=CC.TRUSTED,
-        bounds='container lengths 0..4 (quick) / 0..8 (thorough); single object per harness',
+                    'back with identical length and content, and re-encoding the decoded object reproduces the bytes. '
+                    'In addition whole write+read sessions of the real File (threads, containers, stub zlib) run symbolically: '
+                    'objects come back complete, in order, with equal encodings, followed by null/eof/!good.',
+        trusted_base=CC.TRUSTED + SC.SESSION_TRUST,
+        bounds='codec lemma: container lengths 0..4 (quick) / 0..8 (thorough), one object; end-to-end sessions: 4 objects of 3 types, '
+               'configurations (level, container size, restore points) 3 quick / 10 thorough, one cooperative schedule',
         assumptions=['composition with the stream (C15), queue (C16), container framing (C04) and dispatch (C17) '
                      'lemmas is argued in DESIGN.md, not by a single query',
                      'zlib is trusted (uncompress(compress2(x)) == x)'])
